@@ -9,6 +9,7 @@ like a real child, simulated durations, start-up failures).  A minority of
 runs use the real subprocess.call on /bin/sh to keep the stub honest.
 """
 import os
+import random
 import copy
 import errno
 import shlex
@@ -942,6 +943,98 @@ def shrink(scn):
         yield new
 
 
+# --------------------------------------------------------------------------
+# jobs in which two tasks would share one output directory
+
+CURRENT = {}
+JOB_FILE = os.path.join(os.path.dirname(os.path.abspath(__file__)), 'jobs',
+                        'verif_c19_job.py')
+
+
+def gen_dupjob(rng):
+    '''A job with two distinct RunTasks of one name (hence of one output
+    directory: it is derived from the name), one of them reached through the
+    dependencies of the tasks that job() returns only.'''
+    return {'kind': 'dupjob', 'name': rng.choice(NAMES_OK[:8]),
+            'hidden': rng.choice(('first', 'second', 'none', 'deep')),
+            'edge': rng.choice(('hard', 'soft')),
+            'bystanders': rng.randrange(0, 3),
+            'case': rng.randrange(10 ** 6)}
+
+
+def run_dupjob(scn):
+    mods = load.load_sim()
+    run_mod, common = mods['run'], mods['common']
+    res = Result()
+    res.sim = core.NullSim()
+    res.sim.nontrivial = True
+    res.violations = []
+
+    def make(_case):
+        mk = run_mod.RunTask.from_cli
+        first = mk(scn['name'], ['/bin/echo', 'first'])
+        twin = mk(scn['name'], ['/bin/echo', 'second'])
+        key = 'deps' if scn['edge'] == 'hard' else 'soft_deps'
+        extra = [mk('bystander-%d' % k, ['/bin/true'])
+                 for k in range(scn['bystanders'])]
+        if scn['hidden'] == 'none':
+            return [first, twin] + extra
+        if scn['hidden'] == 'deep':
+            mid = mk('middle', ['/bin/true'], **{key: [twin]})
+            return [first, mk('top', ['/bin/true'], deps=[mid])] + extra
+        top = mk('top', ['/bin/true'], **{key: [twin]})
+        return ([first, top] if scn['hidden'] == 'second'
+                else [top, first]) + extra
+
+    CURRENT['make'] = make
+    try:
+        tasks = common.collect_tasks(JOB_FILE, [str(scn['case'])], {})
+    except ValueError:
+        res.sim.event('dupjob', 'refused')
+        return res
+    except BaseException as exc:   # noqa
+        res.violations.append((
+            'duplicate-names', 'job-with-two-tasks-of-one-name:%s'
+            % type(exc).__name__, {'exception': repr(exc)[:200]}))
+        return res
+    finally:
+        CURRENT.clear()
+    res.sim.event('dupjob', 'accepted')
+    # accepted: then the two tasks must not end up in one directory (the
+    # directory of a RunTask is <output-root>/<its name>)
+    same = [t for t in tasks if getattr(t, 'name', None) == scn['name']]
+    if len(same) >= 2:
+        res.violations.append((
+            'duplicate-names',
+            'two-tasks-of-one-name-share-an-output-directory',
+            {'name': scn['name'], 'hidden': scn['hidden'],
+             'edge': scn['edge'], 'tasks_collected': len(tasks)}))
+    return res
+
+
+def dupjob_phase(tier, seed):
+    rng = random.Random(driver.mix(seed, 0xD19))
+    out = {'evaluations': 0, 'violations': {}, 'distinct': 0,
+           'coverage': {}}
+    seen = {}
+    for _ in range(40 if tier == 'quick' else 400):
+        scn = gen_dupjob(rng)
+        res = run_dupjob(scn)
+        out['evaluations'] += 1
+        seen[scn['hidden'] + '/' + scn['edge']] = \
+            seen.get(scn['hidden'] + '/' + scn['edge'], 0) + 1
+        for cls, sig, detail in res.violations:
+            lst = out['violations'].setdefault(sig, [])
+            if len(lst) < 2:
+                lst.append({'class': cls, 'signature': sig, 'detail': detail,
+                            'scenario': scn, 'preempts': [], 'digest': None,
+                            'seed': seed, 'run_no': -1,
+                            'policy': 'duplicate-names'})
+    out['distinct'] = len(seen)
+    out['coverage'] = {'jobs_with_two_tasks_of_one_name': seen}
+    return out
+
+
 class Spec(simcheck.SimSpec):
     prop = 'C19'
     level = 'exploration'
@@ -990,13 +1083,22 @@ class Spec(simcheck.SimSpec):
         return sched.draw_chooser(rng, scn)
 
     def run(self, scn, chooser):
+        if scn.get('kind') == 'dupjob':
+            return run_dupjob(scn)
         return run_scenario(scn, chooser)
 
     def oracle(self, scn, res):
+        if scn.get('kind') == 'dupjob':
+            return res.violations
         return oracle(scn, res)
 
     def candidates(self, scn):
+        if scn.get('kind') == 'dupjob':
+            return ()
         return shrink(scn)
+
+    def extra(self, tier, seed):
+        return dupjob_phase(tier, seed)
 
     def facts(self, scn, res):
         facts = {}
